@@ -85,13 +85,19 @@ pub fn generate(r: &mut Rng, focus: &str) -> RtScn {
     let mut rplan = Plan::default();
     rplan.dev[SHP] = gen_devcfg(r, true);
     rplan.dev[SHX] = gen_devcfg(r, true);
-    RtScn {
+    let mut scn = RtScn {
         w: WProg { shapes, others: vec![], calls, ending, with_shx, stack: gen_stack(r) },
         wplan,
         rstack: gen_stack(r),
         rplan,
         path: r.chance(1, 16),
+    };
+    // the (empty) destinations are not at their start when the writer gets them
+    if r.chance(1, 8) {
+        scn.wplan.dev[SHP].start = *r.pick(&[1u32, 8, 99, 100, 101, 4096]);
+        scn.wplan.dev[SHX].start = *r.pick(&[0u32, 1, 100, 108, 5000]);
     }
+    scn
 }
 
 /// Independent extremes of a set of vertices (x, y, z, m): [min; 4], [max; 4]; None if empty.
@@ -847,6 +853,16 @@ pub fn large_unit(unit: u64, ctx: &mut Ctx, ctl: &mut crate::scn::UnitCtl) {
                 let shapes = vec![grid_spec(ty, *nparts, if is_polygon(ty) { 3 } else { 2 }, 7), grid_spec(ty, 2, 3, 90)];
                 scns.push(mk(shapes, i % 2 == 0, StackCfg::Direct, StackCfg::Direct, false));
             }
+        }
+        3 => {
+            // one part (or multipoint) of around 2^16 points, Z and M types: block-wise writers
+            for (i, npts) in [65_535usize, 65_536, 65_537, 70_000].iter().enumerate() {
+                let ty = [13, 28, 31, 25][i % 4];
+                let shapes = vec![grid_spec(ty, 1, *npts, 11), grid_spec(ty, 1, 3, 60)];
+                scns.push(mk(shapes, i % 2 == 1, StackCfg::Buf(8192), StackCfg::Buf(8192), false));
+            }
+            let shapes = vec![grid_spec(18, 1, 3, 60), grid_spec(18, 1, 66_000, 11)];
+            scns.push(mk(shapes, true, StackCfg::Buf(8192), StackCfg::Buf(8192), false));
         }
         _ => {
             // many points per part
